@@ -37,7 +37,7 @@ func runC15(c *core.Ctx) {
 		return true
 	}
 	// ---- conversions and Append
-	for _, cv := range dyn.Convs {
+	for _, cv := range dyn.AllConvs() {
 		n++
 		if !c.Mine(n) {
 			continue
@@ -65,7 +65,7 @@ func runC15(c *core.Ctx) {
 			}
 		}
 	}
-	for _, t := range dyn.Types[:dyn.NBuiltin] {
+	for _, t := range dyn.ElemTypes() {
 		n++
 		if !c.Mine(n) {
 			continue
@@ -153,7 +153,7 @@ func runC15(c *core.Ctx) {
 		}
 	}
 	// ---- pool Put
-	for _, t := range dyn.Types[:dyn.NBuiltin] {
+	for _, t := range dyn.ElemTypes() {
 		n++
 		if !c.Mine(n) {
 			continue
